@@ -58,6 +58,9 @@ type Options struct {
 	Balance sdkmath.Int
 	// ExtraCoins are given to every EOA in addition (e.g. a second denom).
 	ExtraCoins sdk.Coins
+	// ValOperators: validator index -> account index whose address operates it (default: an
+	// address nobody holds a key for, derived from the consensus key).
+	ValOperators map[int]int
 	// ValTokens: tokens bonded to each genesis validator by account 0 (default 10^18).
 	ValTokens sdkmath.Int
 	// Fee market: default NoBaseFee=true, MinGasPrice=0.
@@ -227,6 +230,9 @@ func New(o Options) *World {
 			panic(err)
 		}
 		valAddr := sdk.ValAddress(tv.Address)
+		if k, ok := o.ValOperators[i]; ok {
+			valAddr = sdk.ValAddress(w.Addrs[k])
+		}
 		w.ValAddr = append(w.ValAddr, valAddr)
 		w.ValCons = append(w.ValCons, sdk.ConsAddress(tv.Address))
 		validators = append(validators, stakingtypes.Validator{
